@@ -6,12 +6,35 @@ import ast
 
 from ..interp import cval, has_const
 from ..source import norm_text
-from .common import def_map, expand, parent_map, stmt_of, walk_no_nested
+from .common import def_map, expand, guard_facts, parent_map, stmt_of, walk_no_nested
 from .formula import check_degree
-from .geo import kind_errors, pbc_distance_obligations, uniq_events
+from .geo import kind_errors, pbc_distance_obligations, under, uniq_events
 
 COMP = 'gemdat.collective.Collective._compute'
 JC = 'gemdat.jumps.Jumps.collective'
+
+
+_FLIPC = {'<': '>', '<=': '>=', '>': '<', '>=': '<=', '==': '==', '!=': '!='}
+
+
+def is_window(v):
+    return v is not None and (v.store == 'attr:Collective.max_steps' or bool(v.deps and any(d.endswith('.max_steps') for d in v.deps)))
+
+
+def is_cutoff(v):
+    return v is not None and (v.store == 'attr:Collective.max_dist' or bool(v.deps and any(d.endswith('.max_dist') for d in v.deps)))
+
+
+def norm_cmp2(cmp):
+    """(op, left, right) with the bound (window / cut-off / plain column pair) on the right."""
+    if cmp is None:
+        return None
+    o, l, r = cmp[:3]
+    if l is None or r is None:
+        return None
+    if (is_window(l) or is_cutoff(l)) and not (is_window(r) or is_cutoff(r)) and o in _FLIPC:
+        return _FLIPC[o], r, l
+    return o, l, r
 
 
 def row_cols(test, var):
@@ -132,41 +155,56 @@ def check(ctx):
                 pass
             check_scan_exits_nested(ctx, 'R1', fa, upd, ita)
 
-    # ---- R2 / R3
-    cfg = ctx.cfg(COMP)
-    appends = [n for n in walk_no_nested(fi.node) if isinstance(n, ast.Call) and isinstance(n.func, ast.Attribute) and n.func.attr == 'append'
-               and norm_text(n.func.value) == 'collective']
+    # ---- R2 / R3 / R4: conditions under which a pair is recorded
     loops = sorted_scans(ctx, fi, it)
     inner = loops[-1] if len(loops) >= 2 else None
     outer = loops[0] if len(loops) >= 2 else None
-    if not appends or inner is None:
+    pair_appends = []
+    for e in uniq_events(it, {'append'}, under(COMP)):
+        v = e['value']
+        if v is not None and v.ty == 'tuple' and v.elts is not None and len(v.elts) == 2 and all(x.ty == 'Row' for x in v.elts):
+            pair_appends.append(e)
+    if not pair_appends:
         ctx.ob('R2', fi, 'collective.append', None, 'pair recording not recognised')
-    else:
-        vi, vj = outer[1], inner[1]
-        for a in appends:
-            g = cfg.guards(cfg.node_of(a))
-            same_atom = False
-            window = False
-            dist = False
-            defs = def_map(fi.node)
-            for expr, pol in g:
-                expr = expand(expr, defs, keep=(vi, vj))
-                t = norm_text(expr).replace(' ', '')
-                if isinstance(expr, ast.Compare) and len(expr.ops) == 1:
-                    cols_i, cols_j = row_cols(expr, vi), row_cols(expr, vj)
-                    if cols_i == ['atom index'] and cols_j == ['atom index']:
-                        if (isinstance(expr.ops[0], ast.Eq) and pol is False) or (isinstance(expr.ops[0], ast.NotEq) and pol is True):
-                            same_atom = True
-                    # forward window: start_j - stop_i > max_steps is False
-                    if isinstance(expr.left, ast.BinOp) and isinstance(expr.left.op, ast.Sub):
-                        l, r = expr.left.left, expr.left.right
-                        if row_cols(l, vj) == ['start time'] and row_cols(r, vi) == ['stop time'] and 'max_steps' in norm_text(expr.comparators[0]):
-                            if (isinstance(expr.ops[0], (ast.Gt, ast.GtE)) and pol is False) or (isinstance(expr.ops[0], (ast.Lt, ast.LtE)) and pol is True):
-                                window = True
-            ctx.ob('R2', fi, a, same_atom, 'pairs of the same atom are excluded' if same_atom else
-                   'a pair can be recorded for two jumps of the same atom (the same-atom test does not dominate the append)')
-            ctx.ob('R2', fi, norm_text(a) + ' [window]', window, 'pairs outside the correlation window are excluded' if window else
-                   'a pair can be recorded although the later jump starts more than the window after the earlier one stops')
+    for e in pair_appends:
+        a = e['node']
+        where = e['where']
+        facts, complete = guard_facts(ctx, it, where.qualname, a)
+        if where.qualname != COMP:
+            # recorded inside a helper: add the conditions under which the helper is reached (one level)
+            complete = False
+        same_atom = window = dist = False
+        for v, pol, expr, q in facts:
+            if v is None or (v.cmp is None and v.red is None and not has_const(v)):
+                complete = False  # an opaque condition: nothing can be concluded from the absence of a recognised test
+            if v is None:
+                continue
+            c = norm_cmp2(v.cmp)
+            if c is not None:
+                o, l, r = c
+                if l.col == r.col == 'atom index' and l.scan is not None and r.scan is not None and l.scan != r.scan:
+                    if (o == '==' and pol is False) or (o == '!=' and pol is True):
+                        same_atom = True
+                # forward window: start[later] - stop[earlier] > W is False
+                if l.bin is not None and l.bin[0] == '-' and is_window(r):
+                    x, y = l.bin[1], l.bin[2]
+                    if x.col == 'start time' and y.col == 'stop time' and x.scan is not None and y.scan is not None and x.scan > y.scan:
+                        if (o in ('>', '>=') and pol is False) or (o in ('<=', '<') and pol is True):
+                            window = True
+            # any(distance < cut-off)
+            red = v.red
+            if red is not None and red[0] == 'any' and pol is True:
+                cc = norm_cmp2(red[1].cmp) if red[1] is not None else None
+                if cc is not None and cc[0] in ('<', '<=') and cc[1].geo == ('DIST',) and is_cutoff(cc[2]):
+                    dist = True
+        und = None if not complete else False
+        ctx.ob('R2', where, a, True if same_atom else und, 'pairs of the same atom are excluded' if same_atom else
+               'a pair can be recorded for two jumps of the same atom (no same-atom test dominates the append)')
+        ctx.ob('R2', where, norm_text(a) + ' [window]', True if window else und, 'pairs outside the correlation window are excluded' if window else
+               'a pair can be recorded although the later jump starts more than the window after the earlier one stops')
+        ctx.ob('R4', where, norm_text(a) + ' [distance]', True if dist else und, 'a pair is collective when any site distance is below the cut-off' if dist else
+               'a pair is recorded without the test that some site distance is below the cut-off')
+    if inner is not None:
         # R3 inner iterates events[i + 1:]
         src = inner[0].iter.func.value
         t = norm_text(src).replace(' ', '')
@@ -176,8 +214,9 @@ def check(ctx):
                'inner scan starts at the row after the outer one' if ok else
                'the inner scan includes the outer row itself / earlier rows: pairs are reported twice or a jump is paired with itself')
     # ---- R4
-    kind_errors(ctx, 'R4', it, lambda f: f.qualname == COMP, strict=True)
-    ev = [e for e in it.events[start:] if e['tag'] == 'pbc_distance' and e['where'] is not None and e['where'].qualname == COMP]
+    kind_errors(ctx, 'R4', it, under(COMP), strict=True)
+    in_comp = under(COMP)
+    ev = [e for e in it.events[start:] if e['tag'] == 'pbc_distance' and e['where'] is not None and in_comp(e)]
     seen = set()
     for e in ev:
         if id(e['node']) in seen:
@@ -187,18 +226,22 @@ def check(ctx):
         ok = all(x is not None and x.geo is not None and x.geo[0] == 'FRAC' and x.store in ('fresh', 'attr:Structure.frac_coords') for x in (a, b))
         ctx.ob('R4', fi, e['node'], True if ok else None, 'minimum-image distances between the site pairs of the two jumps')
     if not ev:
-        ctx.ob('R4', fi, 'site distances', False, 'distances between the jump sites are not minimum-image lattice distances')
-    for n in ast.walk(fi.node):
-        if isinstance(n, ast.Compare) and 'max_dist' in norm_text(n):
-            t = norm_text(n).replace(' ', '')
-            v = it.value_of(n.left)
-            if v is not None and v.zipped_fancy:
-                ctx.ob('R4', fi, n.left, False, 'the distance block is read with two index lists, which numpy pairs element by element: only origin-origin '
-                                                'and destination-destination distances are tested, the cross terms (origin of one jump vs destination of the other) are lost')
-            ok = isinstance(n.ops[0], (ast.Lt, ast.LtE)) and v is not None and v.geo == ('DIST',)
-            par_any = any(isinstance(c, ast.Call) and norm_text(c.func).endswith('any') and c.args and c.args[0] is n for c in ast.walk(fi.node))
-            ctx.ob('R4', fi, n, True if (ok and par_any) else (False if isinstance(n.ops[0], (ast.Gt, ast.GtE)) else None),
-                   'collective when any site distance is below the cut-off' if (ok and par_any) else 'cut-off test not recognised / inverted')
+        ctx.ob('R4', fi, 'site distances', None, 'no minimum-image lattice distance between the jump sites recognised')
+    from .C04 import functions_under
+    for f_ in functions_under(it, COMP, ctx.p):
+        for n in ast.walk(f_.node):
+            if not isinstance(n, ast.Compare):
+                continue
+            cc = norm_cmp2(it.value_of(n).cmp) if it.value_of(n) is not None else None
+            if cc is None or cc[1].geo != ('DIST',) or not is_cutoff(cc[2]):
+                continue
+            if cc[1].zipped_fancy:
+                ctx.ob('R4', f_, n, False, 'the distance block is read with two index lists, which numpy pairs element by element: only origin-origin '
+                                           'and destination-destination distances are tested, the cross terms (origin of one jump vs destination of the other) are lost')
+            elif cc[0] in ('>', '>='):
+                ctx.ob('R4', f_, n, False, 'cut-off test inverted: pairs are collective when the sites are far apart')
+            else:
+                ctx.ob('R4', f_, n, True, 'site distances compared with the cut-off from below')
     # ---- R5
     fj = ctx.fn(JC)
     cons = [e for e in it.events[start:] if e['tag'] == 'construct' and e['cls'] == 'gemdat.collective.Collective']
